@@ -48,6 +48,16 @@ CLAIMS["C20"] = dict(
     tech="CBMC code contracts on verbatim comparator slices; CBMC pointer-relation (same-object) check as the address-independence obligation; native two-run replay with heap perturbation",
     ref="5/C20")
 
+CLAIMS["C15"] = dict(
+    cat="proof",
+    text="Safety-class obligations (bounds, pointer validity, overflow, internal COLA_ASSERTs, frames, initialisation) of the functions under contract only: ActionInfo's six "
+         "constructors determine type/objPtr/firstMove from their arguments; IncSolver::mostViolated indexes in bounds for every list length; Blocks::cleanup (bounded); and "
+         "the safety obligations of the C05/C16/C01/C20 contract jobs. Histories of API calls, lifetimes, leaks, termination are undecided residue (most of C15).",
+    note=BASE_TB + "Only functions under contract, each under a call-site precondition. CBMC's treatment of uninitialised members as unconstrained values is the "
+         "initialisation oracle. mostViolated runs with --no-pointer-check (elements unconstrained).",
+    tech="CBMC code contracts + built-in safety checks on verbatim slices; two-construction determinism harness for uninitialised members; native placement-new replay",
+    ref="5/C15")
+
 NA = {
     "C02": "Optimality of solve() is a KKT/convergence statement about an iterative active-set method over heap-allocated block trees in IEEE arithmetic; per-function facts need FP multiply/divide reasoning no installed back end finishes (DESIGN 3) and would not imply agreement with a QP oracle.",
     "C03": "'No route segment crosses an obstacle' is emergent from visibility-graph construction (std::list/std::set sweeps), A*, nudging and hyperedge improvement; only the leaf predicates are reachable and they are claimed under C16.",
@@ -62,7 +72,7 @@ NA = {
     "C19": "Decompositions over std::map-of-shared_ptr graphs and a sweep-line planariser; no function within the front end's reach carries the partition property.",
 }
 
-PENDING = {k: 'claim designed in DESIGN.md section 5 but its contract jobs are not built at this commit; not claimed yet' for k in ['C09','C10','C15','C17','C18']}  # id -> reason (claims planned in DESIGN.md whose jobs are not built yet)
+PENDING = {k: 'claim designed in DESIGN.md section 5 but its contract jobs are not built at this commit; not claimed yet' for k in ['C09','C10','C17','C18']}  # id -> reason (claims planned in DESIGN.md whose jobs are not built yet)
 
 
 def main():
